@@ -66,6 +66,27 @@ theorem generated_bif_ampl_local (angle : List K → List K → Option K) (degre
   ⟨fun a b h => ⟨bifVectorLocal_refines pids ⟨hx, hy, hz⟩ k hk a b h, bifAmplLocal_refines angle degrees pids ⟨hx, hy, hz⟩ k hk a b h⟩,
    bifVectorLocal_not_bif pids k hk⟩
 
+/-- **Bif_ampl_remote**: at a bifurcation `v` with children `a`, `b` of a well-formed tree the vectors of `_bif_vector_remote` are
+(point of the LAST node of `Tree.Node.branch` of `a` − point of `v`, the same for `b`) — "between two bifurcation points or between bifurcation point
+and terminal point" — and `bif_ampl_remote` is `degrees (angle …)` of exactly these, for every fuel `≥ n + 1`; not a bifurcation → raises -/
+theorem generated_bif_ampl_remote (angle : List K → List K → Option K) (degrees : K → K) {xs ys zs : List K} (pids : List Int) (hw : C07.WF pids)
+    (hx : xs.length = pids.length) (hy : ys.length = pids.length) (hz : zs.length = pids.length) (k : Nat) (hk : k < pids.length) (Fu : Nat)
+    (hF : pids.length + 1 ≤ Fu) :
+    (∀ a b : Int, kids pids (k : Int) = [a, b] → ∃ la lb : Nat,
+      (RefineNodeBranch.nodeBranch pids Fu a).getLast? = some (la : Int) ∧ (RefineNodeBranch.nodeBranch pids Fu b).getLast? = some (lb : Int) ∧
+      lm_bif_vector_remote Fu (Sub.rangeI pids.length) pids xs ys zs (k : Int) =
+        some (vsub (pos xs ys zs (la : Int)) (pos xs ys zs (k : Int)), vsub (pos xs ys zs (lb : Int)) (pos xs ys zs (k : Int))) ∧
+      lm_bif_ampl_remote angle degrees Fu (Sub.rangeI pids.length) pids xs ys zs (k : Int) =
+        (angle (vsub (pos xs ys zs (la : Int)) (pos xs ys zs (k : Int))) (vsub (pos xs ys zs (lb : Int)) (pos xs ys zs (k : Int)))).map degrees) ∧
+    ((kids pids (k : Int)).length ≠ 2 → lm_bif_vector_remote Fu (Sub.rangeI pids.length) pids xs ys zs (k : Int) = none) := by
+  refine ⟨fun a b h => ?_, fun h => bifVectorRemote_not_bif pids k hk h Fu⟩
+  obtain ⟨la, lb, hla, hlb, e⟩ := bifVectorRemote_refines pids hw ⟨hx, hy, hz⟩ k hk a b h Fu hF
+  obtain ⟨la', lb', hla', hlb', e'⟩ := bifAmplRemote_refines angle degrees pids hw ⟨hx, hy, hz⟩ k hk a b h Fu hF
+  have h1 : la' = la := by rw [hla] at hla'; simpa using hla'.symm
+  have h2 : lb' = lb := by rw [hlb] at hlb'; simpa using hlb'.symm
+  subst h1 h2
+  exact ⟨la', lb', hla, hlb, e, e'⟩
+
 /-- **Branch_pathlength / Contraction / Taper_1 / Taper_2** on any branch given as the list of its node indices: path length = the sum in order of
 `norm (pos later − pos earlier)`; contraction = distance(first, last) / path length; taper_1 = (2r[first] − 2r[last]) / path length;
 taper_2 = (2r[first] − 2r[last]) / 2r[first]; `none` (the source raises / yields inf, nan) on an empty branch or a zero divisor -/
@@ -112,7 +133,9 @@ example : lm_path_distance lgNorm 7 lgP lgX lgY lgZ 4 = some 7 ∧ pathDistance 
 example : lm_rall_power_d lgF (Sub.rangeI 5) lgP lgR 1 = some (6, 2, 4) ∧ lm_rall_power_d lgF (Sub.rangeI 5) lgP lgR 0 = none ∧
     lm_rall_power_d lgF (Sub.rangeI 5) lgP lgR 3 = none ∧ lm_pk_2 lgF (Sub.rangeI 5) lgP lgR 1 = some 0 ∧
     lm_bif_vector_local (Sub.rangeI 5) lgP lgX lgY lgZ 1 = some ([0, 2, 0], [1, 0, 0]) ∧
-    lm_bif_vector_local (Sub.rangeI 5) lgP lgX lgY lgZ 3 = none := by decide +kernel
+    lm_bif_vector_local (Sub.rangeI 5) lgP lgX lgY lgZ 3 = none ∧
+    lm_bif_vector_remote 7 (Sub.rangeI 5) lgP lgX lgY lgZ 1 = some ([0, 2, 0], [3, 0, 1]) ∧
+    lm_bif_vector_remote 7 (Sub.rangeI 5) lgP lgX lgY lgZ 3 = none := by decide +kernel
 example : path_length lgNorm lgX lgY lgZ [1, 3, 4] = some 6 ∧ branchLength lgNorm lgX lgY lgZ [1, 3, 4] = 6 ∧
     lm_contraction lgF lgNorm lgX lgY lgZ [1, 3, 4] = some 1 ∧ lm_contraction lgF lgNorm lgX lgY lgZ [] = none ∧
     lm_contraction lgF lgNorm lgX lgY lgZ [2] = none ∧
